@@ -240,7 +240,11 @@ def _syncml_rewrite(lang_id, elt, s, d):
 
 
 def _shape(ks):
-    return "[" + ",".join(k["name"] if isinstance(k, dict) else (k[0] if k[0] != "text" else "#" + repr(k[1][:12])) for k in ks) + "]"
+    def one(k):
+        if isinstance(k, dict):          # source elements carry "name", denoted ones the set "names"
+            return str(k.get("name") or "|".join(sorted(k.get("names") or ["?"])))
+        return str(k[0]) if k[0] != "text" else "#" + repr(k[1][:12])
+    return "[" + ",".join(one(k) for k in ks) + "]"
 
 
 def expected_header(tj, lang_id, version, anonymous):
